@@ -219,6 +219,7 @@ def main():
   for j in jobs:
     by_ob.setdefault(j['ob'], []).append((j, results[j['id']]))
   violations = []
+  retried = []
   harness_errors = []
   inconclusive = []
   ob_reports = []
@@ -255,9 +256,28 @@ def main():
         elif rc == 1:
           violations.append((ob.name, path, r['cex']))
         else:
-          harness_errors.append('%s: counterexample %r did not reproduce on the '
-                                'real code (rc=%d): %s' % (ob.name, r['cex']['args'],
-                                                           rc, out[-500:]))
+          # The candidate does not reproduce on the untraced real code: an engine
+          # artefact (e.g. state left in a long-lived worker, a C boundary).  The
+          # partition is explored once more in a FRESH worker process; only a
+          # complete exploration there counts, otherwise it is a harness error.
+          note = '%s %r: candidate %r did not reproduce (rc=%d); tracer said: %s' % (
+              ob.name, j['fixed'], r['cex']['args'], rc,
+              ' '.join(r['cex']['why'].split())[:400])
+          print('NOTE', note)
+          r2 = run_jobs([dict(j, id=j['id'])], 1)[j['id']]
+          if r2.get('status') == 'exhausted':
+            retried.append(note)
+            st['refuted'] -= 1
+            st['exhausted'] = st.get('exhausted', 0) + 1
+            tot['paths'] += r2.get('paths', 0) or 0
+            ob_paths += r2.get('paths', 0) or 0
+            if witness is None and r2.get('witness'):
+              witness = r2['witness']
+          else:
+            harness_errors.append('%s: counterexample %r did not reproduce on the '
+                                  'real code (rc=%d) and the re-exploration ended '
+                                  '%s: %s' % (ob.name, r['cex']['args'], rc,
+                                              r2.get('status'), out[-300:]))
       elif r['status'] == 'error':
         harness_errors.append('%s %r: %s' % (ob.name, j['fixed'], r.get('err')))
       elif r['status'] in ('timeout', 'unknown'):
@@ -346,6 +366,7 @@ def main():
             samples=(samples[:16] or [dict(note='none')]),
             inconclusive_list=inconclusive[:50],
             known_findings=known_lines,
+            non_reproducing_candidates_reexplored=retried,
             exhaustive=(tot['discharged'] == n_ob),
         ),
         assumptions=assumes, wall_s=round(wall, 2), violations=len(violations))
